@@ -168,11 +168,21 @@ def close_models():
         except Exception:
             pass
         ctx.models = []
-        try:
-            ex = mx.core.mxsys.executor
-            ex.rolledback.clear() if os.environ.get("VERIF_CLEAR_ROLLEDBACK") else None
-        except Exception:
-            pass
+
+
+def fresh_session():
+    """Every path is a new session: undo process-global modelx state a previous path may have left."""
+    try:
+        for m in list(mx.get_models().values()):
+            m.close()
+    except Exception:
+        pass
+    mx.set_recalc(False)
+    mx.core.mxsys.callstack.maxdepth = type(mx.core.mxsys.callstack).default_maxdepth
+    ex = mx.core.mxsys.executor
+    ex.rolledback.clear()
+    ex.errorstack = None
+    ex.excinfo = None
 
 
 def hit(k, t):
@@ -190,6 +200,7 @@ def harness(fn):
     def w(*a, **k):
         with notrace():
             ctx.reset()
+            fresh_session()
         try:
             r = fn(*a, **k)
             return r
@@ -297,6 +308,7 @@ class Dag:
     def __init__(self, n, shapes=None, defaults=None, fail=None, cached=None, tag="D"):
         self.n = n
         self._rp = {}
+        self.inputs = {}
         with notrace():
             self.m = new_model(tag)
             m = self.m
@@ -316,8 +328,10 @@ class Dag:
                     setattr(S, "p1_%d" % k, -1)
                     setattr(S, "p2_%d" % k, -1)
             self.cells = []
+            self.sources = []
             for k in range(n):
                 src = dag_formula(k, shape=(shapes[k] if shapes else 0), default=bool(defaults and defaults[k]), fail=fail)
+                self.sources.append(src)
                 c = S.new_cells("c%d" % k, formula=src)
                 if cached is not None and not cached[k]:
                     c.is_cached = False
@@ -355,6 +369,8 @@ class Dag:
         return self._rp[k]
 
     def val(self, k, t):
+        if (k, t) in self.inputs:
+            return self.inputs[(k, t)]
         p1, p2, T = self.rp(k)
         r = self.V[k] + t + self.z + self.g
         if p1 >= 0:
@@ -367,6 +383,8 @@ class Dag:
 
     def callees(self, k, t):
         """Direct callees of element (k,t) in formula order, duplicates removed."""
+        if (k, t) in self.inputs:
+            return []
         p1, p2, T = self.rp(k)
         out = []
         if p1 >= 0:
@@ -400,6 +418,57 @@ class Dag:
                     out.append(x)
                     changed = True
         return out
+
+    def lines(self, k):
+        """1-based line numbers inside the source of ck: where it calls p1 / p2 / itself, and where it fails."""
+        src = self.sources[k].splitlines()
+        out = {}
+        for i, ln in enumerate(src, 1):
+            if ("[p1_%d]" % k) in ln and "r = r +" in ln:
+                out["p1"] = i
+            elif ("[p2_%d]" % k) in ln and "r = r +" in ln:
+                out["p2"] = i
+            elif "r = r +" in ln and "t - 1" in ln:
+                out["rec"] = i
+            elif "raise ValueError" in ln or "1 // (0 if" in ln:
+                out["fail"] = i
+        return out
+
+    def simulate(self, q, t, kind, F, FT, already=()):
+        """Depth-first evaluation in formula order with the failure at element (F,FT).
+        Returns (failed, completed elements in completion order, executing chain [(k,t,line)] at the failure)."""
+        done = list(already)
+        chain = []
+
+        def run(k, tt):
+            if (k, tt) in done or (k, tt) in self.inputs:
+                return True
+            L = self.lines(k)
+            chain.append([k, tt, 0])
+            if kind in ("raise", "zerodiv") and k == F and tt == FT:
+                chain[-1][2] = L["fail"]
+                return False
+            p1, p2, T = self.rp(k)
+            steps = []
+            if p1 >= 0:
+                steps.append(("p1", p1, tt))
+            if p2 >= 0:
+                steps.append(("p2", p2, tt))
+            if T and tt > 0:
+                steps.append(("rec", k, tt - 1))
+            for tag, kk, t2 in steps:
+                chain[-1][2] = L[tag]
+                if not run(kk, t2):
+                    return False
+            if kind == "none" and k == F and tt == FT:
+                chain[-1][2] = 0            # the error is raised by modelx after the formula returned
+                return False
+            chain.pop()
+            done.append((k, tt))
+            return True
+
+        ok = run(q, t)
+        return (not ok, list(done), [tuple(c) for c in chain])
 
     def held(self):
         """{(k,t)} currently holding a value, read through the public mapping interface (keys are concrete)."""
